@@ -5,9 +5,18 @@
 // It is SUPPORT for the runtime sentences of the property (goroutines released, promptness, idle-timeout
 // instants, routing released) and correspondence for the idle-deadline arithmetic.
 //
-// op:   scn cause=<capp|sapp|idle|kalive|hsdead|hsstall|reset|fatalc|fatals|tclosec|tcloses|dialcancel>
+// op:   scn cause=<capp|sapp|idle|kalive|hsdead|hsstall|reset|fatalc|fatals|tclosec|tcloses|dialcancel|cappx|vn|kaprobe>
 //
 //	timing=<0|1|2> cb=<set|-> sb=<set|-> idle=<ms> sidle=<ms> ka=<ms> kaside=<c|s|b> drop=<k> rtt=<ms> code=<n> at=<ms>
+//	ips=<bytes> ut=<0|1> vm=<0|1|2> pm=<0|1>
+//
+// ut=1 dials through a UTransport (nil QUICSpec: UTransport.doDial instead of Transport.doDial).
+// cause=vn: the server speaks only QUIC v1, the client offers v2 first, so the first connection is closed "for
+// recreating" by a Version Negotiation packet; vm=0 cancels the dial context while that connection writes its
+// last packet (the recreate error is already recorded, the run loop has not yet returned), vm=1 cancels at the
+// instant `at`, vm=2 never cancels.
+// cause=kaprobe: as kalive, and the client probes a second path (Conn.AddPath + Path.Probe) on which nothing
+// (pm=0) or nothing from the server (pm=1) is delivered, starting `at` after the trigger.
 //
 // result: key=value fields, see report().
 package closee
@@ -17,6 +26,7 @@ import (
 	"crypto/rand"
 	"fmt"
 	"io"
+	"net"
 	"os"
 	"os/exec"
 	"runtime"
@@ -34,6 +44,7 @@ import (
 	"github.com/refraction-networking/uquic/internal/verifharness/vh"
 	"github.com/refraction-networking/uquic/qlog"
 	"github.com/refraction-networking/uquic/qlogwriter"
+	"github.com/refraction-networking/uquic/testutils/simnet"
 )
 
 // sentLog records, per endpoint, every packet sent with its virtual send instant and whether it is
@@ -65,11 +76,16 @@ type dbgRec struct {
 	log  *sentLog
 	// onHandshakeComplete, if set, runs on the run-loop goroutine while it completes the handshake
 	onHandshakeComplete func()
+	// onVersionNegotiation, if set, runs on the run-loop goroutine while it handles a Version Negotiation packet
+	onVersionNegotiation func()
 }
 
 func (r dbgRec) RecordEvent(ev qlogwriter.Event) {
 	if _, ok := ev.(qlog.ALPNInformation); ok && r.onHandshakeComplete != nil {
 		r.onHandshakeComplete()
+	}
+	if _, ok := ev.(qlog.VersionNegotiationReceived); ok && r.onVersionNegotiation != nil {
+		r.onVersionNegotiation()
 	}
 	if ps, ok := ev.(qlog.PacketSent); ok {
 		var fr []string
@@ -132,19 +148,23 @@ func genSet(r *vh.Rand, p int) string {
 var idleChoices = []int64{100, 150, 250, 400, 700, 1000, 2000, 3000, 5000, 10000, 30000}
 
 func (rn *runner) GenOp(r *vh.Rand, i int) string {
-	causes := []string{"capp", "sapp", "idle", "kalive", "hsdead", "hsstall", "reset", "fatalc", "fatals", "tclosec", "tcloses", "dialcancel", "cappx"}
-	cause := causes[r.Pick(16, 16, 18, 8, 4, 4, 8, 6, 6, 5, 5, 8, 2)]
+	causes := []string{"capp", "sapp", "idle", "kalive", "hsdead", "hsstall", "reset", "fatalc", "fatals", "tclosec", "tcloses", "dialcancel", "cappx", "vn", "kaprobe"}
+	cause := causes[r.Pick(15, 15, 17, 6, 4, 4, 8, 6, 6, 5, 5, 7, 2, 9, 8)]
 	timing := r.Pick(15, 55, 30)
+	if cause == "kaprobe" && timing == 0 {
+		// a second path needs the handshake confirmed and spare connection IDs from the server
+		timing = 1
+	}
 	idle := idleChoices[r.Intn(len(idleChoices))]
 	sidle := idleChoices[r.Intn(len(idleChoices))]
 	if r.Chance(40) {
 		sidle = idle
 	}
 	ka := int64(0)
-	if r.Chance(45) || cause == "kalive" {
+	if r.Chance(45) || cause == "kalive" || cause == "kaprobe" {
 		ka = r.Range(20, 4000)
 	}
-	if cause == "kalive" {
+	if cause == "kalive" || cause == "kaprobe" {
 		// the property speaks about keep-alives that are being answered: both ends use the same idle
 		// timeout and the keep-alive period is at most half of it (a keep-alive sent later than the
 		// peer's own, shorter, idle period cannot keep the peer from timing out)
@@ -173,8 +193,32 @@ func (rn *runner) GenOp(r *vh.Rand, i int) string {
 		// sizes that can hit the known CONNECTION_CLOSE overflow (>= 1437) only in the isolated scenario
 		ips = []int64{1200, 1252, 1350, 1436}[r.Intn(4)]
 	}
-	return fmt.Sprintf("scn cause=%s timing=%d cb=%s sb=%s idle=%d sidle=%d ka=%d kaside=%s drop=%d rtt=%d code=%d at=%d ips=%d",
-		cause, timing, genSet(r, 55), genSet(r, 55), idle, sidle, ka, []string{"c", "s", "b"}[r.Intn(3)], drop, rtt, code, at, ips)
+	cb, sb := genSet(r, 55), genSet(r, 55)
+	kaside := []string{"c", "s", "b"}[r.Intn(3)]
+	// which doDial: Transport's or UTransport's
+	ut := 0
+	if r.Chance(35) || ((cause == "dialcancel" || cause == "vn") && r.Chance(40)) {
+		ut = 1
+	}
+	vm, pm := 0, 0
+	switch cause {
+	case "vn":
+		vm = r.Pick(50, 30, 20)
+		at = r.Range(0, 4*rtt+5)
+		if at == rtt {
+			at++ // not in the very instant the Version Negotiation packet arrives (the order would be the scheduler's)
+		}
+	case "kaprobe":
+		pm = r.Pick(55, 45)
+		// the side whose keep-alives must keep the connection up is the one that sends path probe packets:
+		// the client always does, the server only when the client's probes reach it (pm=1)
+		kaside = []string{"c", "b", "s"}[r.Pick(60, 15, 25)]
+		if pm == 1 {
+			kaside = []string{"c", "b", "s"}[r.Pick(35, 15, 50)]
+		}
+	}
+	return fmt.Sprintf("scn cause=%s timing=%d cb=%s sb=%s idle=%d sidle=%d ka=%d kaside=%s drop=%d rtt=%d code=%d at=%d ips=%d ut=%d vm=%d pm=%d",
+		cause, timing, cb, sb, idle, sidle, ka, kaside, drop, rtt, code, at, ips, ut, vm, pm)
 }
 
 // ---------------------------------------------------------------- scenario
@@ -241,6 +285,7 @@ type params struct {
 	code                           uint64
 	at                             time.Duration
 	ips                            int
+	ut, vm, pm                     int
 }
 
 func parseOp(op string) (p params, ok bool) {
@@ -262,7 +307,8 @@ func parseOp(op string) (p params, ok bool) {
 		return strings.Split(kv[k], ",")
 	}
 	p = params{cause: kv["cause"], timing: int(vh.Atoi64(kv["timing"])), cb: set("cb"), sb: set("sb"), idle: ms("idle"), sidle: ms("sidle"),
-		ka: ms("ka"), kaside: kv["kaside"], drop: int(vh.Atoi64(kv["drop"])), rtt: ms("rtt"), code: uint64(vh.Atoi64(kv["code"])), at: ms("at"), ips: int(vh.Atoi64(kv["ips"]))}
+		ka: ms("ka"), kaside: kv["kaside"], drop: int(vh.Atoi64(kv["drop"])), rtt: ms("rtt"), code: uint64(vh.Atoi64(kv["code"])), at: ms("at"), ips: int(vh.Atoi64(kv["ips"])),
+		ut: int(vh.Atoi64(kv["ut"])), vm: int(vh.Atoi64(kv["vm"])), pm: int(vh.Atoi64(kv["pm"]))}
 	if p.cause == "" || p.idle == 0 || p.sidle == 0 || p.rtt == 0 {
 		return p, false
 	}
@@ -470,6 +516,11 @@ func runScenario(p params, res *result) {
 	}
 	clog, slog := &sentLog{}, &sentLog{}
 	var clientTr *quic.Transport
+	// cause=vn: set while the client's first connection handles the Version Negotiation packet
+	var vnSeen, vnFired atomic.Bool
+	var cancelAt atomic.Int64
+	dctx, dcancel := context.WithCancel(context.Background())
+	defer dcancel()
 	{
 		t0 := quic.VerifMonoNow()
 		cconf.Tracer = func(context.Context, bool, quic.ConnectionID) qlogwriter.Trace {
@@ -477,11 +528,31 @@ func runScenario(p params, res *result) {
 				if p.cause == "cappx" && clientTr != nil {
 					clientTr.VerifCloseLocalAll(p.code)
 				}
-			}}}
+			}, func() { vnSeen.Store(true) }}}
 		}
-		sconf.Tracer = func(context.Context, bool, quic.ConnectionID) qlogwriter.Trace { return dbgTrace{dbgRec{"s", t0, slog, nil}} }
+		sconf.Tracer = func(context.Context, bool, quic.ConnectionID) qlogwriter.Trace { return dbgTrace{dbgRec{"s", t0, slog, nil, nil}} }
 	}
-	env, err := e2e.Start(e2e.Setup{RTT: p.rtt, ClientConf: cconf})
+	setup := e2e.Setup{RTT: p.rtt, ClientConf: cconf}
+	if p.cause == "vn" {
+		cconf.Versions = []quic.Version{quic.Version2, quic.Version1}
+		sconf.Versions = []quic.Version{quic.Version1}
+		if p.vm == 0 {
+			// the first datagram written after the Version Negotiation packet was handled is the closing one of the
+			// connection that is being replaced: it is written by the run loop on its way out (the recreate error is
+			// recorded, Conn.run has not returned). Cancel the dial right there and hold the write for vnHold, so
+			// that doDial sees the cancellation before the goroutine that called run() can report.
+			setup.ClientTransport = func(tr *quic.Transport) {
+				tr.Conn = &hookConn{SimConn: tr.Conn.(*simnet.SimConn), beforeWrite: func() {
+					if vnSeen.Load() && vnFired.CompareAndSwap(false, true) {
+						cancelAt.Store(quic.VerifMonoNow())
+						dcancel()
+						time.Sleep(vnHold)
+					}
+				}}
+			}
+		}
+	}
+	env, err := e2e.Start(setup)
 	if err != nil {
 		res.add("setup", "fail:"+err.Error())
 		return
@@ -557,36 +628,67 @@ func runScenario(p params, res *result) {
 	}
 
 	// client: dial
-	dctx, dcancel := context.WithCancel(context.Background())
-	defer dcancel()
-	var cancelAt int64
-	if p.cause == "dialcancel" {
+	if p.cause == "dialcancel" || (p.cause == "vn" && p.vm == 1) {
 		go func() {
 			time.Sleep(p.at)
-			cancelAt = quic.VerifMonoNow()
+			cancelAt.Store(quic.VerifMonoNow())
 			dcancel()
 		}()
 	}
 	if p.cause == "tclosec" && p.timing == 0 {
 		go func() {
 			time.Sleep(p.at)
-			cancelAt = quic.VerifMonoNow()
+			cancelAt.Store(quic.VerifMonoNow())
 			env.ClientTr.Close()
 		}()
 	}
 	if p.cause == "tcloses" && p.timing == 0 {
 		go func() {
 			time.Sleep(p.at)
-			cancelAt = quic.VerifMonoNow()
+			cancelAt.Store(quic.VerifMonoNow())
 			str.Close()
 		}()
 	}
-	conn, derr := env.Dial(dctx)
-	dialAt := quic.VerifMonoNow()
-	res.add("dial", quic.VerifCanonErr(derr))
-	res.add("dial_us", ms(dialAt))
-	if cancelAt != 0 {
-		res.add("cancel_us", ms(cancelAt))
+	// the dial runs on its own goroutine: a Dial that never returns is an outcome (dial=BLOCKED), not a hang
+	type dialRes struct {
+		conn *quic.Conn
+		err  error
+		at   int64
+	}
+	dialCh := make(chan dialRes, 1)
+	go func() {
+		var c *quic.Conn
+		var err error
+		if p.ut == 1 {
+			c, err = (&quic.UTransport{Transport: env.ClientTr}).Dial(dctx, e2e.ServerAddr, env.ClientTLS.Clone(), env.ClientCfg)
+		} else {
+			c, err = env.Dial(dctx)
+		}
+		dialCh <- dialRes{c, err, quic.VerifMonoNow()}
+	}()
+	var conn *quic.Conn
+	var derr error
+	select {
+	case dr := <-dialCh:
+		conn, derr = dr.conn, dr.err
+		res.add("dial", quic.VerifCanonErr(derr))
+		res.add("dial_us", ms(dr.at))
+	case <-time.After(dialPatience):
+		// longer than any handshake timeout in use (2 x 30 s)
+		res.add("dial", "BLOCKED")
+		res.add("dial_us", ms(quic.VerifMonoNow()))
+		derr = context.DeadlineExceeded
+	}
+	if ca := cancelAt.Load(); ca != 0 {
+		res.add("cancel_us", ms(ca))
+	}
+	if p.cause == "vn" {
+		if p.vm == 0 {
+			res.add("vnfired", strconv.Itoa(b01(vnFired.Load())))
+		}
+		if conn != nil {
+			res.add("ver", strconv.FormatUint(uint64(conn.ConnectionState().Version), 10))
+		}
 	}
 	if derr != nil {
 		// the dial failed: nothing but the routing tables and the leak check remain
@@ -603,12 +705,17 @@ func runScenario(p params, res *result) {
 	cl.conn = conn
 	cl.watch()
 
+	var probeTr *quic.Transport // cause=kaprobe: the transport of the probed path
 	finish := func() {
 		// routing tables after the closing period, then tear down
 		time.Sleep(20 * time.Second)
 		synctest.Wait()
 		h, tk := env.ClientTr.VerifRouting()
 		res.add("rt.c", fmt.Sprintf("%d/%d", h, tk))
+		if probeTr != nil {
+			h, tk := probeTr.VerifRouting()
+			res.add("rt.p", fmt.Sprintf("%d/%d", h, tk))
+		}
 		var hs, ts int
 		for _, t := range transports {
 			a, b := t.VerifRouting()
@@ -639,9 +746,9 @@ func runScenario(p params, res *result) {
 		finish()
 		return
 	}
-	if p.cause == "dialcancel" || ((p.cause == "tclosec" || p.cause == "tcloses") && p.timing == 0) {
+	if p.cause == "dialcancel" || p.cause == "vn" || ((p.cause == "tclosec" || p.cause == "tcloses") && p.timing == 0) {
 		// the event came too late for the dial: close normally
-		if p.cause == "dialcancel" {
+		if p.cause == "dialcancel" || p.cause == "vn" {
 			conn.CloseWithError(quic.ApplicationErrorCode(p.code), "done")
 		}
 		waitDone(cl, 60*time.Second)
@@ -790,6 +897,59 @@ func runScenario(p params, res *result) {
 		}
 		trig = quic.VerifMonoNow()
 		cl.start("closecall", func() error { return cl.conn.CloseWithError(quic.ApplicationErrorCode(p.code), "bye") })
+	case "kaprobe":
+		// a second client socket on the same simulated network: nothing it writes is delivered (pm=0), or its
+		// datagrams reach the server and nothing is delivered back to it (pm=1: the server answers the probes, and
+		// probes the new address itself, into the void)
+		sim2 := &simnet.Simnet{Router: env.Net}
+		pc2 := sim2.NewEndpoint(&net.UDPAddr{IP: net.ParseIP("1.0.0.3"), Port: 9003}, simnet.NodeBiDiLinkSettings{Latency: p.rtt / 2,
+			Downlink: simnet.LinkSettings{MTU: 65535}, Uplink: simnet.LinkSettings{MTU: 65535}})
+		sim2.Start()
+		ptr := &quic.Transport{Conn: &deadConn{SimConn: pc2, oneWay: p.pm == 1}}
+		defer func() {
+			ptr.Close()
+			pc2.Close()
+			sim2.Close()
+		}()
+		pctx, pcancel := context.WithCancel(bg)
+		defer pcancel()
+		time.Sleep(p.at)
+		path, perr := cl.conn.AddPath(ptr)
+		res.add("addpath", quic.VerifCanonErr(perr))
+		var probe *callRes
+		if perr == nil {
+			probe = &callRes{}
+			go func() {
+				err := path.Probe(pctx)
+				cl.mu.Lock()
+				probe.err, probe.at, probe.done = err, quic.VerifMonoNow(), true
+				cl.mu.Unlock()
+			}()
+		}
+		w := p.idle
+		if p.sidle > w {
+			w = p.sidle
+		}
+		time.Sleep(3 * w)
+		synctest.Wait()
+		aliveAfterWait = b01(!cl.isDone() && (sv.conn == nil || !sv.isDone()))
+		res.add("ka.c", idleFields(cl.conn.VerifIdleState(), t0, t0))
+		if sv.conn != nil {
+			res.add("ka.s", idleFields(sv.conn.VerifIdleState(), t0, t0))
+		}
+		if probe != nil {
+			cl.mu.Lock()
+			if probe.done {
+				res.add("probe", quic.VerifCanonErr(probe.err))
+			} else {
+				res.add("probe", "pending")
+			}
+			cl.mu.Unlock()
+		}
+		pcancel()
+		probeTr = ptr
+		trig = quic.VerifMonoNow()
+		cl.start("closecall", func() error { return cl.conn.CloseWithError(quic.ApplicationErrorCode(p.code), "bye") })
 	case "idle":
 		env.Net.DropAll[e2e.ToClient] = true
 		env.Net.DropAll[e2e.ToServer] = true
@@ -873,6 +1033,44 @@ func runScenario(p params, res *result) {
 		}
 	}
 	finish()
+}
+
+// vnHold is how long the closing write of a connection that is being recreated is held in cause=vn, vm=0.
+const vnHold = time.Millisecond
+
+// dialPatience is how long a scenario waits (virtual time) for Dial to return.
+const dialPatience = 150 * time.Second
+
+// hookConn is the client's socket with a callback before every write (on the writer's goroutine).
+type hookConn struct {
+	*simnet.SimConn
+	beforeWrite func()
+}
+
+func (c *hookConn) WriteTo(b []byte, addr net.Addr) (int, error) {
+	c.beforeWrite()
+	return c.SimConn.WriteTo(b, addr)
+}
+
+// deadConn is a socket of a dead path: what is written is lost (or, oneWay, delivered), what arrives is discarded.
+type deadConn struct {
+	*simnet.SimConn
+	oneWay bool
+}
+
+func (c *deadConn) WriteTo(b []byte, addr net.Addr) (int, error) {
+	if c.oneWay {
+		return c.SimConn.WriteTo(b, addr)
+	}
+	return len(b), nil
+}
+
+func (c *deadConn) ReadFrom(b []byte) (int, net.Addr, error) {
+	for {
+		if _, _, err := c.SimConn.ReadFrom(b); err != nil {
+			return 0, nil, err
+		}
+	}
 }
 
 func waitDone(s *side, max time.Duration) {
